@@ -22,9 +22,11 @@ macro_rules! vp_assert {
 /// Unconditional tagged failure (e.g. "returned Err on valid input").
 #[macro_export]
 macro_rules! vp_fail {
-    ($tag:literal) => {
-        panic!(concat!("VP:", $tag))
-    };
+    ($tag:literal) => {{
+        // an assertion (not a bare panic) so that Kani's concrete playback produces a test for it
+        assert!(false, concat!("VP:", $tag));
+        unreachable!()
+    }};
 }
 
 /// Vacuity witness: must be SATISFIED for the harness to count (DESIGN 5.1).
